@@ -223,6 +223,26 @@ def run(ctx):
         _two_grammars(ctx, I3, w3, TB, pf3, texts, syms)
     finally:
         _sv.OPTIONS["unit_groups"] = False
+    # the contrast-matching routines: a compound given as a *string* with table=T is parsed with T (observed at the parser)
+    from . import C16 as _c16
+    w16, seen16 = _c16.setup(ctx)
+    I16 = w16.I
+    fm16 = I16.global_name("formulas", "formula")
+    other16 = I16.new_obj("other_public_table", None, {}, open_attrs=set())
+    for fname in ("D2O_sld", "D2O_match"):
+        _c16.COMPOUND_STRINGS.clear()
+        _c16.COMPOUND_STRINGS["<compound>"] = [lambda tab: I16.call(fm16, [{w16.atoms["H1"]: sp.Integer(2), w16.atoms["element2"]: sp.Integer(1)}],
+                                                                    {"density": sp.Symbol("rho", positive=True)})]
+        saved16 = I16.module_cache[("core", "PUBLIC_TABLE")]
+        I16.module_cache[("core", "PUBLIC_TABLE")] = other16
+        try:
+            rr16 = raises(lambda: I16.call(I16.global_name("nsf", fname), ["<compound>"], {"table": w16.table}))
+        finally:
+            I16.module_cache[("core", "PUBLIC_TABLE")] = saved16
+        tabs16 = _c16.COMPOUND_STRINGS["<compound>"][1:]
+        _c16.COMPOUND_STRINGS.clear()
+        ctx.check(bool(tabs16) and all(tb is w16.table for tb in tabs16), "R4", f"nsf.{fname}('<string>', table=T): the string is parsed with T",
+                  f"parsed with {[getattr(tb, 'name', tb) for tb in tabs16]}" + (f" (raises {rr16})" if rr16 else ""), fsite(ctx, f"nsf.{fname}"))
     # the sequence prefix route
     f = ctx.src.func("formulas.formula")
     seq_calls = [n for n in ast.walk(f.node) if isinstance(n, ast.Call) and ast.unparse(n.func).endswith("Sequence")]
